@@ -344,6 +344,14 @@ func (c *c17Chain) applyRestart(r *Rec, kind string) (string, string) {
 	if after != before || codeAfter != codeBefore {
 		c.find(r, "C17:chain:"+kind+":state-changed", "contract-visible or native staking / gov / bank state changed across the restart", after+" code "+codeAfter, before+" code "+codeBefore)
 	}
+	// the provider of the authenticity statement must hold again after every restart (honest export included)
+	for _, which := range []string{"staking", "gov"} {
+		if o, genuine := c17CodeAt(c.app, w.ctx, which); !genuine {
+			c.find(r, "C17:system-address-code-not-genuine:"+which+":after-"+kind, "after the restart the code at the "+which+" system-contract address is not the embedded genuine byte code", o, "genuine:eth")
+		} else {
+			r.Count("chain.code-genuine")
+		}
+	}
 	r.Count("chain." + kind)
 	return kind, c.out("ok " + after)
 }
